@@ -795,3 +795,22 @@ class Intrinsics:
         if isinstance(d, DigitStr):
             return d.len
         raise Unsupported(f'dlen({d!r})')
+
+    def s_frac_den(self, P, x):
+        """denominator of a rational (speclib.frac_den): 1 for an int, x.denominator for a Fraction"""
+        if is_intlike(x):
+            return 1
+        if isinstance(x, Fraction):
+            return x.denominator
+        if is_sym_real(x):
+            return self.ex.frac_part(P, x, 'denominator')
+        raise Unsupported(f'frac_den({x!r})')
+
+    def s_frac_num(self, P, x):
+        if is_intlike(x):
+            return as_int(x)
+        if isinstance(x, Fraction):
+            return x.numerator
+        if is_sym_real(x):
+            return self.ex.frac_part(P, x, 'numerator')
+        raise Unsupported(f'frac_num({x!r})')
